@@ -122,10 +122,11 @@ void Apbp::SetSemaphore(u16 bits) {
 #ifdef TEAKRA_VERIF
     TEAKRA_VERIF_YIELD(Verif::ApbpSetSemaphoreBeforeHandler);
 #endif
+    // publish the flag before notifying: the handler may call back into this object (e.g. to acknowledge)
+    impl->semaphore_master_signal = impl->semaphore_master_signal || new_signal;
     if (new_signal && impl->semaphore_handler) {
         impl->semaphore_handler();
     }
-    impl->semaphore_master_signal = impl->semaphore_master_signal || new_signal;
 }
 
 void Apbp::ClearSemaphore(u16 bits) {
@@ -145,10 +146,11 @@ void Apbp::MaskSemaphore(u16 bits) {
     // A change of the mask is reflected in the signal flag immediately, and a 0 -> 1 transition of
     // the flag interrupts the receiving side (see apbp.md)
     bool new_signal = (impl->semaphore & ~impl->semaphore_mask) != 0;
-    if (new_signal && !impl->semaphore_master_signal && impl->semaphore_handler) {
+    bool rose = new_signal && !impl->semaphore_master_signal;
+    impl->semaphore_master_signal = new_signal;
+    if (rose && impl->semaphore_handler) {
         impl->semaphore_handler();
     }
-    impl->semaphore_master_signal = new_signal;
 }
 
 u16 Apbp::GetSemaphoreMask() const {
